@@ -155,7 +155,7 @@ def level_a(events):
             if e.get("skipped"):
                 continue
             out.append(dict(ev="rec", label=e["label"], D=e["D"], sentinel=e["sentinel"], hang=e["hang"],
-                            extra=e["extra"]))
+                            extra=e["extra"], post=e.get("post", [1, 2, 3])))
             if gen2:
                 out[-1]["Dabs"] = e["Dabs"]
         elif ev in ("hang", "puterr"):
